@@ -373,3 +373,153 @@ def run(ctx: Ctx, which: set[str], quick_limit: int, thorough_limit: int, lenien
     if uniq:
         return Outcome.refuted("real parse/emit vs content model", uniq, detail=f"{len(res['failures'])} failing documents in {len(uniq)} classes", **extra)
     return Outcome.ok("real parse/emit vs content model", **extra)
+
+
+# ---- C03.B2: the TOOLS are canonicalisers too: octave_validate and octave_write(lenient) on lenient renderings --------------
+def _tool_one(idx: int):
+    import asyncio
+    import os
+    import random as _random
+    import shutil
+    import tempfile
+
+    from octave_mcp.core.emitter import emit
+    from octave_mcp.core.parser import parse_with_warnings
+    from octave_mcp.mcp.validate import ValidateTool
+    from octave_mcp.mcp.write import WriteTool
+
+    m = docs(*_CFG["docs"])[idx]
+    feats = features(m)
+    if feats & KNOWN_FEATURES:
+        return False, "", False, idx
+    rng = _random.Random(_CFG["seed"] * 131 + idx)
+    try:
+        c0 = M.render_canonical(m)
+        want = emit(parse_with_warnings(c0)[0])
+    except Exception:  # noqa: BLE001
+        return False, "", False, idx
+    d = tempfile.mkdtemp(prefix="vf-c03t-")
+    try:
+        n = 0
+        for t, inj in itertools.islice(M.render_all_lenient(m, 6, rng), 6):
+            try:
+                if emit(parse_with_warnings(t)[0]) != want:
+                    continue  # the reader route's own divergence is C03.B1's subject
+            except Exception:  # noqa: BLE001
+                continue
+            n += 1
+            r = asyncio.run(ValidateTool().execute(content=t, schema="META"))
+            if r.get("status") == "success" and r.get("canonical") != want:
+                return True, f"C03.tool: octave_validate canonicalises a lenient spelling to different bytes: {r.get('canonical')!r} vs {want!r} | input {t!r}", True, idx
+            p = os.path.join(d, f"w{n}.oct.md")
+            r = asyncio.run(WriteTool().execute(target_path=p, content=t, lenient=True))
+            if r.get("status") == "success":
+                got = open(p, encoding="utf-8", newline="").read()  # the bytes as written (no newline translation)
+                if got != want:
+                    return True, f"C03.tool: octave_write(lenient) writes different bytes for a lenient spelling: {got!r} vs {want!r} | input {t!r}", True, idx
+            else:
+                return True, f"C03.tool: octave_write(lenient) refuses a spelling the lenient reader accepts: {[e.get('code') for e in r.get('errors', [])]} | input {t!r}", True, idx
+        return False, "", n > 0, idx
+    finally:
+        shutil.rmtree(d, ignore_errors=True)
+
+
+def replay_tool_doc(docs_cfg, seed, idx):
+    configure({"C03"}, tuple(docs_cfg), 6, seed)
+    r = _tool_one(idx)
+    return r[0], r[1] or "tools canonicalise the lenient spellings to the canonical bytes"
+
+
+def run_tools(ctx: Ctx, limit_quick: int, limit_thorough: int) -> Outcome:
+    from verif.bounded.sweep import sweep
+
+    docs_cfg = (2, 2, ctx.seed, limit_thorough if ctx.thorough else limit_quick)
+    configure({"C03"}, docs_cfg, 6, ctx.seed)
+    n = len(docs(*docs_cfg))
+    step = 3 if ctx.thorough else 5
+    res = sweep(_tool_one, range(0, n, step), ctx.cores, chunk=20)
+    wits, seen = [], set()
+    for idx, text in res["failures"][:400]:
+        key = text.split(":", 2)[1].strip()[:60]
+        if key in seen:
+            continue
+        seen.add(key)
+        wits.append(Witness(what=text[:1100], input={"doc_index": idx}, key=f"tool|{key}", replay={"runner": "props.docs_b:replay_tool_doc", "args": {"docs_cfg": list(docs_cfg), "seed": ctx.seed, "idx": idx}}, confirmed=True))
+    nf, fbad = freedoms_through_tools()
+    for on, tool, what in fbad[:6]:
+        wits.append(Witness(what=f"C03.tool: freedoms {on} via {tool}: {what}", input={"freedoms": on}, key=f"freedoms|{tool}|{','.join(on)[:60]}", replay={"runner": "props.docs_b:replay_freedoms", "args": {}}, confirmed=True))
+    extra = dict(bound=f"every {step}th of {n} model documents (those without a known-finding feature), up to 6 lenient renderings each (incl. all-sites-at-once), through octave_validate(schema=META) and octave_write(lenient=True): the canonical text / the written file must equal the canonical bytes of the canonical rendering; plus all {nf} subsets of 8 documented freedoms (trailing spaces on envelope lines, space before / after ::, 4-space indentation, blank lines, omitted END, ASCII arrow, trailing spaces) on one document through the reader and both tools", evaluations=res["evaluations"] + nf, distinct_nontrivial=res["nontrivial"], rule="a case is one model document with its renderings through both tools")
+    if wits:
+        return Outcome.refuted("real tools", wits[:12], **extra)
+    return Outcome.ok("real tools", **extra)
+
+
+# hand-built product of the documented freedoms on one small document (every subset), through both tools
+def freedom_texts():
+    base = [("env", "===DOC==="), ("meta", "META:"), ("m1", "  TYPE::T"), ("a", "A::x"), ("b", "B:"), ("c", "  C::1"), ("l", "L::[a,b]"), ("f", "F::x→y"), ("end", "===END===")]
+    canon = "\n".join(t for _, t in base) + "\n"
+    freedoms = ("env-trailing", "space-before-assign", "space-after-assign", "indent4", "blank-lines", "no-end", "ascii-arrow", "line-trailing")
+    for mask in range(1 << len(freedoms)):
+        on = {f for i, f in enumerate(freedoms) if mask >> i & 1}
+        out = []
+        for name, t in base:
+            if name == "end" and "no-end" in on:
+                continue
+            if name in ("env", "end") and "env-trailing" in on:
+                t = t + "   "
+            if "::" in t:
+                k, v = t.split("::", 1)
+                t = k + (" " if "space-before-assign" in on else "") + "::" + (" " if "space-after-assign" in on else "") + v
+            if t.startswith("  ") and "indent4" in on:
+                t = "  " + t
+            if "ascii-arrow" in on:
+                t = t.replace("→", "->")
+            if "line-trailing" in on and name not in ("env", "end"):
+                t = t + "  "
+            out.append(t)
+            if "blank-lines" in on and name in ("env", "a", "c"):
+                out.append("")
+        yield sorted(on), "\n".join(out) + "\n", canon
+
+
+def freedoms_through_tools():
+    """[(freedoms, tool, what)] for every subset whose result differs from the canonical document's"""
+    import asyncio
+    import os
+    import shutil
+    import tempfile
+
+    from octave_mcp.core.emitter import emit
+    from octave_mcp.core.parser import parse_with_warnings
+    from octave_mcp.mcp.validate import ValidateTool
+    from octave_mcp.mcp.write import WriteTool
+
+    bad, n = [], 0
+    d = tempfile.mkdtemp(prefix="vf-c03f-")
+    try:
+        for on, text, canon in freedom_texts():
+            want = emit(parse_with_warnings(canon)[0])
+            n += 1
+            try:
+                if emit(parse_with_warnings(text)[0]) != want:
+                    bad.append((on, "parse_with_warnings+emit", "different bytes"))
+                    continue
+            except Exception as e:  # noqa: BLE001
+                bad.append((on, "parse_with_warnings", f"{type(e).__name__}: {e}"))
+                continue
+            r = asyncio.run(ValidateTool().execute(content=text, schema="META"))
+            if r.get("status") != "success" or r.get("canonical") != want:
+                bad.append((on, "octave_validate", f"status {r.get('status')}, canonical {str(r.get('canonical'))[:80]!r}"))
+            p = os.path.join(d, f"f{n}.oct.md")
+            r = asyncio.run(WriteTool().execute(target_path=p, content=text, lenient=True))
+            got = open(p, encoding="utf-8", newline="").read() if os.path.exists(p) else None
+            if r.get("status") != "success" or got != want:
+                bad.append((on, "octave_write(lenient)", f"status {r.get('status')}, file {str(got)[:90]!r}"))
+        return n, bad
+    finally:
+        shutil.rmtree(d, ignore_errors=True)
+
+
+def replay_freedoms():
+    n, bad = freedoms_through_tools()
+    return bool(bad), "; ".join(f"{on} via {tool}: {what}" for on, tool, what in bad[:3]) or f"{n} subsets of the documented freedoms converge through the reader and both tools"
